@@ -733,6 +733,180 @@ func (e *Env) RParenSync() {
 			"the spec list of "+base+" is modified but its parenthesis flags are never assigned: a declaration that grows from one spec to several keeps Lparen=false, the restored ast has NoPos for parentheses that are printed, and GenDecl.End() stops at the last spec")
 	}
 	e.Run.Floor("R-PAREN", "import declarations whose specs updateImports changes", n, 2)
+	e.RParenKeep()
+}
+
+// RParenKeep (R-PAREN): the parentheses of an import declaration are dropped only when the spec
+// that is left has no comments above it. `import\n// comment\n"path"` no longer attaches the
+// comment to the spec (go/parser gives an unparenthesised spec no doc); for import "C" that
+// comment is the cgo preamble and the file stops building. For every store that can clear a
+// GenDecl's Lparen in the restorer's import code — `X.Lparen = false` under a condition, or
+// `X.Lparen = E` when E is false — the condition under which it clears must be impossible while
+// the Start decorations of the remaining spec are non-empty.
+func (e *Env) RParenKeep() {
+	pkg := e.Prog.Pkg(load.PkgDecorator)
+	info := pkg.TypesInfo
+	c := e.Sib.Ctx[load.PkgDecorator]
+	n := 0
+	type clearing struct {
+		cond string
+		ok   bool
+		at   token.Pos
+		fn   string
+	}
+	var cs []clearing
+	for _, fd := range load.AllFuncDecls(pkg) {
+		if fd.Body == nil || !strings.HasSuffix(e.Prog.File(fd.Pos()), "restorer.go") {
+			continue
+		}
+		var stores []*ast.AssignStmt
+		ast.Inspect(fd.Body, func(nd ast.Node) bool {
+			if as, ok := nd.(*ast.AssignStmt); ok && len(as.Lhs) == len(as.Rhs) {
+				for _, l := range as.Lhs {
+					if se, ok := ast.Unparen(l).(*ast.SelectorExpr); ok && se.Sel.Name == "Lparen" {
+						if _, tn := namedOf(info.TypeOf(se.X)); tn == "GenDecl" {
+							stores = append(stores, as)
+						}
+					}
+				}
+			}
+			return true
+		})
+		if len(stores) == 0 {
+			continue
+		}
+		var params []types.Object
+		if fd.Type.Params != nil {
+			for _, f := range fd.Type.Params.List {
+				for _, nm := range f.Names {
+					params = append(params, info.Defs[nm])
+				}
+			}
+		}
+		undo := c.InstallReaching(fd)
+		for _, as := range stores {
+			for i, l := range as.Lhs {
+				se, ok := ast.Unparen(l).(*ast.SelectorExpr)
+				if !ok || se.Sel.Name != "Lparen" {
+					continue
+				}
+				val := c.ExprStr(as.Rhs[i])
+				if val == "true" {
+					continue // sets the parentheses
+				}
+				pc, okp := pathCond(c, fd.Body.List, as)
+				and := func(a, b string) string {
+					switch {
+					case a == "":
+						return b
+					case b == "":
+						return a
+					}
+					return "(" + a + ") && (" + b + ")"
+				}
+				// the value is a bool parameter: what the callers hand in, where they do
+				pidx := -1
+				if id, isID := ast.Unparen(as.Rhs[i]).(*ast.Ident); isID {
+					for k, po := range params {
+						if info.Uses[id] == po {
+							pidx = k
+						}
+					}
+				}
+				if pidx >= 0 {
+					target := info.Defs[fd.Name]
+					for _, g := range load.AllFuncDecls(pkg) {
+						if g.Body == nil {
+							continue
+						}
+						var calls []*ast.CallExpr
+						ast.Inspect(g.Body, func(nd ast.Node) bool {
+							if call, ok := nd.(*ast.CallExpr); ok && pidx < len(call.Args) {
+								if fn := calleeFunc(info, call); fn != nil && types.Object(fn) == target {
+									calls = append(calls, call)
+								}
+							}
+							return true
+						})
+						if len(calls) == 0 {
+							continue
+						}
+						undoG := c.InstallReaching(g)
+						for _, call := range calls {
+							arg := c.ExprStr(call.Args[pidx])
+							if arg == "true" {
+								continue
+							}
+							pcG, okG := pathCond(c, g.Body.List, call)
+							cond := and(pc, pcG)
+							if arg != "false" {
+								cond = and(cond, "!("+arg+")")
+							}
+							cs = append(cs, clearing{cond, okp && okG, call.Pos(), load.FuncName(g) + " → " + load.FuncName(fd)})
+						}
+						undoG()
+					}
+					continue
+				}
+				cond := pc
+				if val != "false" {
+					cond = and(cond, "!("+val+")")
+				}
+				cs = append(cs, clearing{cond, okp, as.Pos(), load.FuncName(fd)})
+			}
+		}
+		undo()
+	}
+	for _, cl := range cs {
+		n++
+		key := fmt.Sprintf("%s: the parentheses of an import declaration are dropped only for a spec without comments above it", cl.fn)
+		g := parseGuard(cl.cond)
+		if !cl.ok || !g.ok {
+			e.Run.Undecided("R-PAREN", key, e.Prog.Pos(cl.at), "condition not propositional: "+cl.cond)
+			continue
+		}
+		atoms := map[string]bool{}
+		if g.expr != nil {
+			collectAtoms(g.expr, atoms)
+		}
+		vals, okv := valuations(atoms, 12)
+		if !okv {
+			e.Run.Undecided("R-PAREN", key, e.Prog.Pos(cl.at), "too many conditions: "+cl.cond)
+			continue
+		}
+		// atoms that say "the list is non-empty" (0 < len(…), len(…) != 0) for the Start
+		// decorations and for the spec list itself: the world of interest is a declaration with a
+		// remaining spec that has comments above it
+		nonEmpty := func(a, of string) bool {
+			return strings.Contains(a, "len(") && strings.Contains(a, of) &&
+				(strings.HasPrefix(a, "0 < len(") || strings.HasSuffix(a, " != 0") || strings.HasPrefix(a, "0 != "))
+		}
+		hasStart := false
+		for a := range atoms {
+			if nonEmpty(a, ".Start)") {
+				hasStart = true
+			}
+		}
+		bad := ""
+		for _, v := range vals {
+			skip := false
+			for a, tv := range v {
+				if (nonEmpty(a, ".Start)") || nonEmpty(a, "Specs)")) && !tv {
+					skip = true
+				}
+			}
+			if skip {
+				continue
+			}
+			if evalGuard(g.expr, v) {
+				bad = valString(v)
+				break
+			}
+		}
+		e.Run.Check("R-PAREN", key, e.Prog.Pos(cl.at), hasStart && bad == "",
+			"Lparen is cleared when «"+cl.cond+"», which does not exclude a remaining spec with Start decorations (comments above it): printed without parentheses the comment is detached from the spec — the preamble of import \"C\" is lost and the file no longer builds")
+	}
+	e.Run.Floor("R-PAREN", "stores that can clear the parentheses of an import declaration", n, 1)
 }
 
 // RHangGuard: in link(), the search for the hanging comments of a case / comm clause is made with
@@ -1008,6 +1182,89 @@ func (e *Env) hangGuardIn(fd *ast.FuncDecl) bool {
 	}
 	e.Run.Floor("R-HANG", "spoofed end indents in link", len(rs), 1)
 	_ = n
+	// H4: a node that is no clause is searched for hanging comments whenever it ends deeper than
+	// it starts — on a continuation line, however deep. The search is the call that is handed a
+	// [2]int in this function, or, when this function is a helper that tells its caller whether
+	// to search, a return whose last (bool) result is true.
+	var hangConds []string
+	searchAt := token.NoPos
+	if rel != nil {
+		ast.Inspect(fd.Body, func(nd ast.Node) bool {
+			switch v := nd.(type) {
+			case *ast.CallExpr:
+				if v.Pos() < endDef.End() {
+					return true
+				}
+				for _, a := range v.Args {
+					if at, ok := info.TypeOf(a).Underlying().(*types.Array); ok && at.Len() == 2 {
+						if pc, okp := pathCond(c, rel, v); okp {
+							if pc == "" {
+								pc = "true"
+							}
+							hangConds = append(hangConds, pc)
+							searchAt = v.Pos()
+						}
+					}
+				}
+			case *ast.ReturnStmt:
+				if v.Pos() < endDef.End() || len(v.Results) == 0 {
+					return true
+				}
+				last := v.Results[len(v.Results)-1]
+				if b, ok := info.TypeOf(last).Underlying().(*types.Basic); !ok || b.Kind() != types.Bool {
+					return true
+				}
+				if pc, okp := pathCond(c, rel, v); okp {
+					cond := c.ExprStr(last)
+					if pc != "" {
+						cond = "(" + pc + ") && (" + cond + ")"
+					}
+					hangConds = append(hangConds, cond)
+					if searchAt == token.NoPos {
+						searchAt = v.Pos()
+					}
+				}
+			}
+			return true
+		})
+	}
+	if len(hangConds) > 0 {
+		var parts []string
+		for _, hc := range hangConds {
+			parts = append(parts, "("+hc+")")
+		}
+		all := strings.Join(parts, " || ")
+		deeper, _ := atomKey(mustParseExpr(startN + " < " + endN))
+		hg := parseGuard(all)
+		hatoms := map[string]bool{deeper: true}
+		if hg.ok && hg.expr != nil {
+			collectAtoms(hg.expr, hatoms)
+		}
+		hvals, okh := valuations(hatoms, 12)
+		const key4 = "link: a statement or declaration that ends deeper than it starts is searched for hanging comments"
+		if !hg.ok || !okh {
+			e.Run.Undecided("R-HANG", key4, e.Prog.Pos(searchAt), "condition not propositional: "+all)
+		} else {
+			bad := ""
+			for _, v := range hvals {
+				skip := false
+				for a, tv := range v {
+					if k := kindOfAtom(a); k != "" && tv {
+						skip = true // a clause: its end indent is rewritten first (H2)
+					}
+				}
+				if skip || !v[deeper] {
+					continue
+				}
+				if !evalGuard(hg.expr, v) {
+					bad = valString(v)
+					break
+				}
+			}
+			e.Run.Check("R-HANG", key4, e.Prog.Pos(searchAt), bad == "",
+				"the search is not made when «"+bad+"» although "+startN+" < "+endN+": after a statement whose last line is two or more levels deeper (a wrapped call inside a wrapped expression) a comment at the statement's own indent is attached to the End of the statement and printed one tab deeper")
+		}
+	}
 	return true
 }
 
